@@ -48,7 +48,7 @@ pub fn random_game(rng: &mut StdRng) -> Game {
         0 => None,
         1 => Some(format!(" {} ", clk(rng))),
         2 => Some(format!(" [%eval {}{}.{}] {} ", if rng.gen_bool(0.5) { "-" } else { "" }, rng.gen_range(0..9), rng.gen_range(0..99), clk(rng))),
-        _ => match rng.gen_range(0..20) { 0 => Some(String::new()), 1 => Some(" ".into()), 2..=10 => Some(format!(" {} ", clk(rng))), _ => None },
+        _ => match rng.gen_range(0..20) { 0 => Some(String::new()), 1 => Some(" ".into()), 11 => Some(" très fort — ♔ ".into()), 2..=10 => Some(format!(" {} ", clk(rng))), _ => None },
     }).collect();
     let last = ps.last().unwrap();
     let result = if last.is_mate() { if last.wtm { "0-1" } else { "1-0" } } else { *["1-0", "0-1", "1/2-1/2", "*"].choose(rng).unwrap() }.to_string();
@@ -60,11 +60,11 @@ pub fn random_game(rng: &mut StdRng) -> Game {
             "Result" => result.clone(),
             "Site" => format!("https://lichess.org/{}", (0..8).map(|_| (b'a' + rng.gen_range(0..26)) as char).collect::<String>()),
             "Event" => ["Rated Blitz game", "Rated Bullet tournament https://lichess.org/tournament/xYz12345", "Casual Correspondence game", "?"].choose(rng).unwrap().to_string(),
-            "Opening" => ["Sicilian Defense: Najdorf Variation, English Attack", "Queen's Gambit Declined: 4.Nf3", "King's Indian Attack", "?", "Zukertort Opening: Kingside Fianchetto (1. Nf3 d5 2. g3)"].choose(rng).unwrap().to_string(),
+            "Opening" => ["Sicilian Defense: Najdorf Variation, English Attack", "Queen's Gambit Declined: 4.Nf3", "King's Indian Attack", "?", "Zukertort Opening: Kingside Fianchetto (1. Nf3 d5 2. g3)", "Grünfeld Defense: Exchange Variation", "Réti Opening", "Nimzo-Larsen Attack: Polish Variation", "Grób Opening", "Ruy López: Morphy Defense, Neo-Archangelsk Variation", "Sicilian Defense: Löwenthal Variation", "Ünlü — 名人戦 ♞"].choose(rng).unwrap().to_string(),
             "TimeControl" => ["300+0", "600+5", "-", "60+0"].choose(rng).unwrap().to_string(),
             "Date" | "UTCDate" => format!("20{:02}.{:02}.{:02}", rng.gen_range(13..24), rng.gen_range(1..13), rng.gen_range(1..29)),
             "UTCTime" => format!("{:02}:{:02}:{:02}", rng.gen_range(0..24), rng.gen_range(0..60), rng.gen_range(0..60)),
-            "White" | "Black" => ["DrNykterstein", "some_user-42", "Player One", "O-O", "1-0", "a[b]c", "x {y} z"].choose(rng).unwrap().to_string(),
+            "White" | "Black" => ["DrNykterstein", "some_user-42", "Player One", "O-O", "1-0", "a[b]c", "x {y} z", "Đorđe_Ž", "ÿ"].choose(rng).unwrap().to_string(),
             "WhiteRatingDiff" | "BlackRatingDiff" => format!("{}{}", if rng.gen_bool(0.5) { "+" } else { "-" }, rng.gen_range(0..30)),
             "Termination" => ["Normal", "Time forfeit", "Abandoned"].choose(rng).unwrap().to_string(),
             _ => rng.gen_range(800..2900).to_string(),
@@ -177,6 +177,7 @@ pub fn check_database(rng: &mut StdRng, rep: &mut Report, n_configs: usize) {
     rep.count(&format!("layout_final_newline_{}", layout.final_newline));
     for g in &games {
         if g.tags.iter().any(|(_, v)| v.is_empty()) { rep.count("games_with_empty_tag_value"); }
+        if g.tags.iter().any(|(_, v)| !v.is_ascii()) || g.comments.iter().any(|c| c.as_ref().map_or(false, |c| !c.is_ascii())) { rep.count("games_with_non_ascii_text"); }
         if g.comments.iter().any(|c| c.as_deref() == Some("")) { rep.count("games_with_empty_comment"); }
     }
     for g in &games { rep.count(&format!("result_{}", g.result)); if g.comments.iter().any(|c| c.is_some()) { rep.count("games_with_comments"); } else { rep.count("games_without_comments"); } }
